@@ -45,7 +45,7 @@ def tlc_graph(nspines, maxcols, timeout=3000):
             f.write(f'CONSTANTS NSpines = {nspines}\nMaxCols = {maxcols}\nINIT Init\nNEXT Next\nINVARIANTS TypeOK Ordered\n')
         dot = os.path.join(tmp, 'g.dot')
         env = dict(os.environ)
-        env.pop('JAVA_TOOL_OPTIONS', None)
+        env['JAVA_TOOL_OPTIONS'] = f'-Djava.io.tmpdir={tmp}'       # TLC's own scratch directories go into ours (removed below), not into /tmp
         r = subprocess.run([tlc, '-workers', '1', '-noGenerateSpecTE', '-deadlock', '-metadir', os.path.join(tmp, 'meta'),
                             '-dump', 'dot,actionlabels', dot, 'SpinePaths.tla'], cwd=tmp, capture_output=True, text=True, timeout=timeout, env=env)
         out = r.stdout + r.stderr
